@@ -18,6 +18,15 @@ namespace NakenVerif.Reader.Nest
 
 open NakenVerif.Generated
 
+/-- The limits exist and are small enough for the stack: assemble() + parse_directives + parse_if
+    + include_parse use about 10 KB per level (filename[8192] in include_parse), the expression
+    evaluators below 1 KB per level; 2 + 128 + 32 levels of the former and 512 + 512 of the latter
+    stay far below an 8 MB stack.  A limit that disappears from the source is regenerated as
+    1000000007 and breaks this obligation. -/
+theorem limits_sane :
+    nestingTestsPresent = true ∧ includeDepthMax ≤ 64 ∧ maxNestedIfs ≤ 256 ∧ maxExpressionDepth ≤ 2048 ∧
+    maxIfdefParens ≤ 2048 ∧ maxMacroExpansions ≤ 10000000 ∧ mpParamCountMax ≤ 255 ∧ exCountMax ≤ 255 := by decide
+
 /-- what a statement can do to the nesting of assemble() -/
 inductive Ev where
   | ifOpen      -- .if / .ifdef / .ifndef
